@@ -213,6 +213,16 @@ def _snap_module(name, mod):
             snap[k] = ("ref", v, None)
         elif type(v) in (dict, list, set):
             snap[k] = ("copy", v, type(v)(v))
+        elif (getattr(type(v), "__module__", "") or "").startswith("websocket") and not isinstance(v, type) \
+                and isinstance(getattr(v, "__dict__", None), dict):
+            # a module-level INSTANCE of one of the repository's classes (the process-wide cookie jar): its attribute dict
+            attrs = {}
+            for ak, av in v.__dict__.items():
+                if type(av) in _DATA:
+                    attrs[ak] = ("ref", av, None)
+                elif type(av) in (dict, list, set):
+                    attrs[ak] = ("copy", av, type(av)(av))
+            snap[k] = ("inst", v, attrs)
     _SNAP[name] = snap
 
 
@@ -232,6 +242,15 @@ def restore_globals():
             if kind == "ref":
                 if g.get(k, _SNAP) is not obj:
                     g[k] = obj
+            elif kind == "inst":
+                if g.get(k, _SNAP) is not obj:
+                    g[k] = obj
+                for ak, (akind, aobj, acopy) in copy.items():
+                    if akind == "copy" and aobj != acopy:
+                        aobj.clear()
+                        (aobj.extend if type(aobj) is list else aobj.update)(acopy)
+                    if obj.__dict__.get(ak, _SNAP) is not aobj:
+                        obj.__dict__[ak] = aobj
             else:
                 if obj != copy:
                     obj.clear()
